@@ -409,6 +409,14 @@ def generate():
         out.append(f"def shape_recvFreshVectors : Bool := {'true' if fresh and pushes and cm else 'false'}  -- vectors and control buffer created per call, filled once")
         disc = 'cmp::Ordering::Equal=>{drop(dedicated_rx);drop(channels);drop(shared_memory_regions);returnrecv(fd,blocking_mode);},' in rflat
         out.append(f"def shape_recvDiscardRestarts : Bool := {'true' if disc else 'false'}  -- truncated: drop everything collected, then receive afresh")
+        # once the first packet is taken the call stays with the message: follow-up fragments are read with a plain blocking
+        # recv() (flags 0), whatever the caller's receive mode — no poll, no time-out, no non-blocking flag inside the loop
+        mloop = re.search(r'while\s+main_data_buffer\.len\(\)\s*<\s*total_size\s*\{', recv)
+        lbody = recv[mloop.end():find_block(recv, mloop.end()) - 1] if mloop else ''
+        lflat = re.sub(r'\s+', '', lbody).replace('returnrecv(fd,blocking_mode);', '')
+        fb = ('libc::recv(dedicated_rx.fd.get(),main_data_buffer[write_pos..].as_mut_ptr()as*mutc_void,end_pos-write_pos,0,)' in lflat
+              and 'poll' not in lflat and 'blocking_mode' not in lflat and 'MSG_DONTWAIT' not in lflat and 'O_NONBLOCK' not in lflat and 'EAGAIN' not in lflat)
+        out.append(f"def shape_followupsBlocking : Bool := {'true' if fb else 'false'}  -- a message once begun is assembled to the end (or found truncated)")
         # truncated message handling: legacy returns ChannelClosed; repaired code receives the next message
         m = re.search(r'cmp::Ordering::Equal\s*=>\s*return\s+Err\(UnixError::ChannelClosed\)', recv)
         out.append(f"def recvTruncatedIsClosed : Bool := {'true' if m else 'false'}")
